@@ -59,7 +59,8 @@ def check(tier):
     try:
         n, ops = (1200, 12) if tier == "quick" else (30000, 14)
         pref = os.path.join(d, "s")
-        rc, out = run([binary, "subs", "-n", str(n), "-ops", str(ops), "-seed", str(sd), "-out", pref],
+        rc, out = run([binary, "subs", "-n", str(n), "-ops", str(ops), "-seed", str(sd), "-out", pref,
+                       "-shards", "16" if tier == "quick" else "64"],
                       timeout=3000)
         if rc != 0:
             raise Inconclusive("subs driver failed: " + out[-2000:])
